@@ -26,7 +26,7 @@ MUT = [
  ("m28-walk-unselected-refs", "C01", "sizes/graph.go", "\t\t\t\tif !root.Walk() {\n\t\t\t\t\tcontinue\n\t\t\t\t}\n", ""),
  ("m29-threshold-config-ignored-when-names-given", "C14", "git-sizer.go", '\tif !flags.Changed("names") {', '\tif !flags.Changed("names") && !flags.Changed("json") {'),
  ("m30-shallow-check-removed", "C13", "git/git.go", "\tif !full {\n", "\tif false && !full {\n"),
- ("m31-gitdir-not-joined", "C13", "git/git.go", "\tgitDir := smartJoin(path, string(bytes.TrimSpace(out)))", "\tgitDir := string(bytes.TrimSpace(out))"),
+ # m31 (gitDir not joined with path) was an equivalent mutant: path is always "." so filepath.Join(".", x) == x
  ("m32-saturated-not-forced", "C05", "sizes/output.go", "\tvalue, overflow := i.value.ToUint64()\n\tif overflow {\n\t\treturn \"!!!!!!!!!!!!!!!!!!!!!!!!!!!!!!\", true\n\t}\n\talert", "\tvalue, _ := i.value.ToUint64()\n\talert"),
  ("m33-config-value-trimmed", "C15", "git/gitconfig.go", "\t\t\tvalue = string(record[keyEnd+1:])", "\t\t\tvalue = strings.TrimSpace(string(record[keyEnd+1:]))"),
 ]
